@@ -13,6 +13,7 @@ mod props_aux;
 mod props_build;
 mod props_keys;
 mod props_life;
+mod props_msglen;
 mod props_pure;
 mod props_purity;
 mod refmodel;
@@ -61,6 +62,7 @@ pub fn replay_case(case: &Value) -> Result<Vec<ctx::Viol>, String> {
         "c16" => props_keys::c16_replay(case),
         "c12" => props_pure::c12_replay(case),
         "arith" => props_pure::arith_replay(case),
+        "msglen" => props_msglen::msglen_replay(case),
         e => Err(format!("unknown engine {}", e)),
     }
 }
